@@ -56,7 +56,7 @@ def cases(draw, hazard):
         alias = draw(name_part())
         as_ = draw(st.booleans())
     w = lambda: draw(st.sampled_from(WS))
-    neighbours = lambda: [draw(st.sampled_from(['x1', 'y2', 'k.z', '"q"', 't3 AS a4', 'foo bar', '7', 'f(1)'])) for _ in range(draw(st.integers(0, 3)))]
+    neighbours = lambda: [draw(st.sampled_from(['x1', 'y2', 'k.z', '"q"', 't3 AS a4', 'foo bar', '7', 'f(1)', 'foo  bar', 'orders   o', 'x1\n    y9', 'k.z \t zz', '"q"  qq', 'f(1)   ff', '7  sv'])) for _ in range(draw(st.integers(0, 3)))]
     renders = []
     for _ in range(2):
         ref = (qual['text'] + '.' if qual else '') + name['text']
